@@ -54,6 +54,8 @@ const TARGETS: &[Target] = &[
     Target { file: "ssz/src/bitfield.rs", imp: "Bitfield", name: "get", coq: "bitfield_get" },
     Target { file: "ssz/src/bitfield.rs", imp: "Bitfield", name: "set", coq: "bitfield_set" },
     Target { file: "ssz/src/bitfield.rs", imp: "Bitfield", name: "from_raw_bytes", coq: "bitfield_from_raw_bytes" },
+    Target { file: "ssz/src/bitfield.rs", imp: "Bitfield", name: "difference_inplace", coq: "bitfield_difference_inplace" },
+    Target { file: "ssz/src/bitfield.rs", imp: "Bitfield", name: "shift_up", coq: "bitfield_shift_up" },
     Target { file: "ssz/src/legacy.rs", imp: "", name: "encode_four_byte_union_selector", coq: "encode_four_byte_union_selector" },
     Target { file: "ssz/src/legacy.rs", imp: "", name: "read_four_byte_union_selector", coq: "read_four_byte_union_selector" },
 ];
@@ -97,6 +99,8 @@ struct Cx {
     aliases: HashMap<String, (String, String)>,
     /// translating an operand of a u8 bit operation: `!` is bitwise
     u8ctx: bool,
+    /// "Imp::name" of translated `&mut self` methods (they return the new state)
+    mut_methods: Vec<String>,
     notes: Vec<String>,
 }
 
@@ -126,7 +130,7 @@ fn int_lit(e: &Expr) -> Option<u128> {
 
 impl Cx {
     fn new(records: HashMap<String, Vec<String>>, res_fns: HashMap<String, String>) -> Self {
-        Cx { fresh: 0, binds: vec![], self_rec: None, records, res_fns, fn_params: vec![], aliases: HashMap::new(), u8ctx: false, notes: vec![] }
+        Cx { fresh: 0, binds: vec![], self_rec: None, records, res_fns, fn_params: vec![], aliases: HashMap::new(), u8ctx: false, mut_methods: vec![], notes: vec![] }
     }
 
     fn var(&mut self, hint: &str) -> String {
@@ -393,6 +397,14 @@ impl Cx {
                 Ok((format!("{{| {} |}}", parts.join("; ")), Pure))
             }
             Expr::Array(a) if a.elems.is_empty() => Ok(("[]".into(), Pure)),
+            Expr::Range(r) => {
+                let a = match &r.start { Some(s) => self.val(s)?, None => "0".into() };
+                let b = match &r.end { Some(e) => self.val(e)?, None => return Err("open-ended range as a value".into()) };
+                if !matches!(r.limits, syn::RangeLimits::HalfOpen(_)) {
+                    return Err("inclusive range as a value".into());
+                }
+                Ok((format!("(range_up {} {})", a, b), Pure))
+            }
             Expr::Call(c) => {
                 let f = match &*c.func {
                     Expr::Path(p) => path_str(&p.path),
@@ -486,6 +498,22 @@ impl Cx {
             let f = self.closure1(&m.args[0], Comp)?;
             return Ok((format!("bind ({}) {}", r, f), Comp));
         }
+        // self.method(args) where the method is itself a translated target of the same impl
+        if let (Expr::Path(p), Some(rec)) = (&*m.receiver, self.self_rec.clone()) {
+            if path_str(&p.path) == "self" {
+                let key = format!("{}::{}", rec, name);
+                if let Some(cn) = self.res_fns.get(&key).cloned() {
+                    if self.mut_methods.contains(&key) {
+                        return Err(format!("call of the mutating method self.{}() outside statement position", name));
+                    }
+                    let mut args = vec!["self".to_string()];
+                    for a in &m.args {
+                        args.push(self.val(a)?);
+                    }
+                    return Ok((format!("{} {}", cn, args.join(" ")), Comp));
+                }
+            }
+        }
         let r = self.val(&m.receiver)?;
         let arg = |cx: &mut Cx, i: usize| -> R<String> { cx.val(&m.args[i]) };
         Ok(match name.as_str() {
@@ -522,6 +550,7 @@ impl Cx {
                 let a = arg(self, 0)?;
                 (format!("(N.compare {} {})", r, a), Pure)
             }
+            "rev" => (format!("(rev {})", r), Pure),
             "windows" => {
                 if int_lit(&m.args[0]) != Some(2) {
                     return Err("windows(n) only for n = 2".into());
@@ -719,6 +748,7 @@ impl Cx {
             Stmt::Expr(e, semi) => {
                 let is_mutation = matches!(e, Expr::Assign(_) | Expr::ForLoop(_))
                     || matches!(e, Expr::Binary(b) if matches!(b.op, BinOp::AddAssign(_) | BinOp::BitOrAssign(_) | BinOp::BitAndAssign(_)));
+                let is_mutation = is_mutation || self.mut_self_call(e).is_some();
                 if rest.is_empty() && semi.is_none() && !is_mutation {
                     return self.tail(e, k);
                 }
@@ -751,6 +781,26 @@ impl Cx {
         }
     }
 
+    /// `self.m(args)?` or `self.m(args).unwrap()` / `.expect(..)` with m a translated `&mut self`
+    /// method: (coq name, args, unwrapped?)
+    fn mut_self_call(&self, e: &Expr) -> Option<(String, Vec<Expr>, bool)> {
+        let (inner, unwrap) = match e {
+            Expr::Try(t) => (&*t.expr, false),
+            Expr::MethodCall(m) if m.method == "unwrap" || m.method == "expect" => (&*m.receiver, true),
+            _ => return None,
+        };
+        let m = match inner { Expr::MethodCall(m) => m, _ => return None };
+        match &*m.receiver {
+            Expr::Path(p) if path_str(&p.path) == "self" => {}
+            _ => return None,
+        }
+        let key = format!("{}::{}", self.self_rec.clone()?, m.method);
+        if !self.mut_methods.contains(&key) {
+            return None;
+        }
+        Some((self.res_fns.get(&key)?.clone(), m.args.iter().cloned().collect(), unwrap))
+    }
+
     fn set_self(&self, field: &str, v: &str) -> R<String> {
         let rec = self.self_rec.clone().ok_or("mutation of self outside an impl")?;
         Ok(format!("set_{}_{} self {}", rec, field, paren(v)))
@@ -779,6 +829,37 @@ impl Cx {
                     }
                 }
                 Err(format!("unsupported assignment: {}", tokens(e)))
+            }
+            // self.f[i] &= e;   self.f[i] |= e;
+            Expr::Binary(b) if matches!(b.op, BinOp::BitOrAssign(_) | BinOp::BitAndAssign(_)) && matches!(&*b.left, Expr::Index(_)) => {
+                let ix = match &*b.left { Expr::Index(ix) => ix, _ => unreachable!() };
+                let f = self.self_field(&ix.expr).ok_or_else(|| format!("unsupported compound assignment target: {}", tokens(e)))?;
+                let rec = self.self_rec.clone().unwrap();
+                let cur = format!("({} self)", self.field_proj(&rec, &f));
+                let i = self.val(&ix.index)?;
+                let old = self.bind(format!("index_at {} {}", cur, i), "t");
+                let saved = self.u8ctx;
+                self.u8ctx = true;
+                let r = self.val(&b.right);
+                self.u8ctx = saved;
+                let r = r?;
+                let op = if matches!(b.op, BinOp::BitOrAssign(_)) { "N.lor" } else { "N.land" };
+                let nv = self.bind(format!("set_at {} {} ({} {} {})", cur, i, op, old, r), "upd");
+                let upd = self.set_self(&f, &nv)?;
+                let body = self.block(rest, k)?;
+                Ok(format!("let self := {} in\n{}", upd, body))
+            }
+            // self.m(args)?;   self.m(args).unwrap();   for a translated `&mut self` method m
+            Expr::Try(_) | Expr::MethodCall(_) if self.mut_self_call(e).is_some() => {
+                let (cn, args, unwrap) = self.mut_self_call(e).unwrap();
+                let mut avs = vec!["self".to_string()];
+                for a in &args {
+                    avs.push(self.val(a)?);
+                }
+                let call = format!("{} {}", cn, avs.join(" "));
+                let st = self.bind(if unwrap { format!("unwrap_res ({})", call) } else { call }, "st");
+                let body = self.block(rest, k)?;
+                Ok(format!("let self := {} in\n{}", st, body))
             }
             // *x |= e;  *x &= e;   where x aliases self.f[i]
             Expr::Binary(b) if matches!(b.op, BinOp::BitOrAssign(_) | BinOp::BitAndAssign(_)) => {
@@ -968,6 +1049,7 @@ fn coq_type(t: &Type, records: &HashMap<String, Vec<String>>) -> R<String> {
         "SmallVec8<[u8]>" => "(list bytes)".into(),
         "Option<usize>" => "(option N)".into(),
         "UnionSelector" => "N".into(),
+        "Self" => "SELF".into(),
         _ => {
             if let Some(inner) = s.strip_prefix("SmallVec8<").and_then(|x| x.strip_suffix('>')) {
                 if records.contains_key(inner) {
@@ -1079,6 +1161,7 @@ fn main() {
     // which targets return Result (so that calls to them are computations)
     let mut res_fns: HashMap<String, String> = HashMap::new();
     let mut found: Vec<(&Target, syn::Signature, Block)> = vec![];
+    let mut mut_methods: Vec<String> = vec![];
     for t in TARGETS {
         let mut hit = None;
         if let Some(f) = files.get(t.file) {
@@ -1109,6 +1192,9 @@ fn main() {
                 let ret = match &sig.output { ReturnType::Type(_, t) => tokens(&**t), ReturnType::Default => "()".into() };
                 let key = if t.imp.is_empty() { t.name.to_string() } else { format!("{}::{}", t.imp, t.name) };
                 let _ = ret;
+                if sig.inputs.iter().any(|a| matches!(a, FnArg::Receiver(r) if r.mutability.is_some())) {
+                    mut_methods.push(key.clone());
+                }
                 res_fns.insert(key.clone(), t.coq.to_string());
                 if !res_fns.contains_key(t.name) {
                     res_fns.insert(t.name.to_string(), t.coq.to_string());
@@ -1123,6 +1209,7 @@ fn main() {
 
     for (t, sig, block) in &found {
         let mut cx = Cx::new(records.clone(), res_fns.clone());
+        cx.mut_methods = mut_methods.clone();
         let mut params: Vec<String> = vec![];
         let mut has_self = false;
         let mut mut_self = false;
@@ -1146,7 +1233,7 @@ fn main() {
                         params.push(format!("({} : bytes -> bytes)", name));
                     } else {
                         match coq_type(&pt.ty, &records) {
-                            Ok(ct) => params.push(format!("({} : {})", name, ct)),
+                            Ok(ct) => params.push(format!("({} : {})", name, if ct == "SELF" { t.imp.to_string() } else { ct })),
                             Err(e) => err = Some(e),
                         }
                     }
